@@ -108,6 +108,13 @@ def list_line(fam, number, data, listo, state):
             body.append(b); in_str = True; continue
         if b == 0x8D:
             if n - i < 3: raise Invalid('line number cut off')
+            if state.get('strict'):
+                b1, b2, b3 = data[i], data[i+1], data[i+2]
+                t = decode_line_number(b1, b2, b3)
+                lo_, hi_ = t & 0xFF, t >> 8
+                canon = ((((lo_ & 0xC0) >> 2) | ((hi_ & 0xC0) >> 4)) ^ 0x54, (lo_ & 0x3F) | 0x40, (hi_ & 0x3F) | 0x40)
+                if (b1, b2, b3) != canon:
+                    raise Ambiguous('0x8D operand bytes that no tokeniser produces')
             body += b'%d' % decode_line_number(data[i], data[i+1], data[i+2]); i += 3; continue
         if fam == 'PDP11' and b == 0xC8:
             if i >= n: raise Invalid('C8 at eol')
